@@ -47,6 +47,7 @@ import (
 	"bytes"
 	"context"
 	"fmt"
+	"math"
 	"os"
 	"sort"
 	"strconv"
@@ -123,25 +124,25 @@ type savedRound struct {
 }
 
 type storeRun struct {
-	prop         string // "C03" | "C04" | "C05" | "" (all)
-	dir          string
-	pndb         *util.PNodeDB
-	tries        map[int]*trieH
-	version      int64
-	saved        []savedRound
-	pruned       int64 // roots at versions below this are no longer retained
-	roundOps     []string
-	light        bool // op `light`: no per-operation frame/view re-reads after ins/del (large histories)
-	sub          bool // replaying a round on a cloned store: no output checks, no nested enumeration
-	fails        []string
-	tags         map[string]bool
-	opIdx        int
-	opText       string
-	ntMerges     int
-	ntSaves      int
-	ntDead       int
-	ntPrune      int
-	bigDead      int
+	prop     string // "C03" | "C04" | "C05" | "" (all)
+	dir      string
+	pndb     *util.PNodeDB
+	tries    map[int]*trieH
+	version  int64
+	saved    []savedRound
+	pruned   int64 // highest version of a dead-node record that a prune was entitled to drop (records < v); roots saved at versions below it are no longer retained. Stronger than the property's "version >= v": a root at version r only depends on records of versions > r staying unpruned
+	roundOps []string
+	light    bool // op `light`: no per-operation frame/view re-reads after ins/del (large histories)
+	sub      bool // replaying a round on a cloned store: no output checks, no nested enumeration
+	fails    []string
+	tags     map[string]bool
+	opIdx    int
+	opText   string
+	ntMerges int
+	ntSaves  int
+	ntDead   int
+	ntPrune  int
+	bigDead  int
 }
 
 func cloneMap(m map[string][]byte) map[string][]byte {
@@ -1002,8 +1003,22 @@ func (s *storeRun) exec(op string) string {
 				}
 			}
 		}
-		if v > s.pruned {
-			s.pruned = v
+		for ver := range recsBefore {
+			if ver < v && ver > s.pruned {
+				s.pruned = ver
+			}
+		}
+		switch {
+		case v < 0:
+			s.tags["prune-negative"] = true
+		case v == 0:
+			s.tags["prune-zero"] = true
+		case v == math.MaxInt64:
+			s.tags["prune-maxint64"] = true
+		case len(s.saved) > 0 && v <= s.saved[0].version:
+			s.tags["prune-at-or-below-first"] = true
+		case len(s.saved) > 0 && v > s.saved[len(s.saved)-1].version:
+			s.tags["prune-beyond-last"] = true
 		}
 		pre := freshDir("c05pre")
 		grocksdb.FakeClone(s.dir, pre)
@@ -1097,7 +1112,7 @@ func (s *storeRun) checkPruned(dir string, before map[string][]byte, allowed map
 }
 
 func runStoreCase(prop string, ops []string) CaseResult {
-	s := &storeRun{prop: prop, dir: freshDir("store"), tries: map[int]*trieH{}, tags: map[string]bool{}}
+	s := &storeRun{prop: prop, dir: freshDir("store"), tries: map[int]*trieH{}, tags: map[string]bool{}, pruned: math.MinInt64}
 	s.pndb = openPNDB(s.dir)
 	res := CaseResult{}
 	for i, op := range ops {
